@@ -138,3 +138,33 @@ pub async fn run() -> Result<ExitCode> {
 		exit
 	})
 }
+
+/// Verification hooks (feature `verif-hooks`, off by default): entry points that let an external
+/// harness drive the real argument normalisation, action handler, filterer and emitters in-process.
+#[cfg(feature = "verif-hooks")]
+pub mod verif {
+	use std::ffi::OsString;
+
+	use clap::Parser;
+	use miette::{IntoDiagnostic, Result};
+
+	pub use crate::{
+		args::Args,
+		config::make_config,
+		emits::{emits_to_environment, events_to_simple_format},
+		filterer::WatchexecFilterer,
+		state::{new as new_state, State},
+	};
+
+	/// Parse an argv vector (including the program name) and run the same normalisation steps
+	/// as `get_args()`, without touching logging or `std::env::args`.
+	pub async fn args_from(argv: Vec<OsString>) -> Result<Args> {
+		let mut args = Args::try_parse_from(argv).into_diagnostic()?;
+		args.output.normalise()?;
+		args.command.normalise().await?;
+		args.filtering.normalise(&args.command).await?;
+		args.events
+			.normalise(&args.command, &args.filtering, args.only_emit_events)?;
+		Ok(args)
+	}
+}
